@@ -32,7 +32,7 @@ def dep_spelling(pkgs, t, d, style):
 
 
 def scenario_from_graph(g, placement=0, jobs=1, stop=False, sched=None, git_tpl=None, extra_argv=(), target=None,
-                        args=None, options=None):
+                        args=None, options=None, force_git=False):
     """g: dict with n, deps (1-based lists), kind (exp|cmd|group|combine), par, cachedTs, stale, again, atLeast,
     now, lastTs0 (as exported by Planner.tla)."""
     n = g["n"]
@@ -49,7 +49,7 @@ def scenario_from_graph(g, placement=0, jobs=1, stop=False, sched=None, git_tpl=
             tk["options"] = options.get(t, {})
         tasks.append(tk)
     rows = []
-    use_git = bool(g.get("atLeast"))
+    use_git = bool(g.get("atLeast")) or (force_git and bool(git_tpl))
     commits = git_tpl["commits"] if (use_git and git_tpl) else None
     cached = g.get("cachedTs", [0] * n)
     stale = g.get("stale", [False] * n)
@@ -62,6 +62,15 @@ def scenario_from_graph(g, placement=0, jobs=1, stop=False, sched=None, git_tpl=
                 else:
                     commit = commits[1] if (t + placement) % 2 == 0 else commits[2]
             rows.append({"task": ident_of(pkgs, t), "ts": cached[t - 1], "commit": commit, "dirty": False})
+    if use_git and placement % 3 == 1 and git_tpl.get("side"):
+        # an experiment WITHOUT a usable result may still have history: a version recorded while git was switched off (no
+        # commit) next to one recorded on another branch (a commit that is no ancestor of HEAD).
+        # By the documented rule neither may be used (results of a non-ancestor commit exist, so the commit-less one is not
+        # trusted either): the task is as uncached as before
+        for t in range(1, n + 1):
+            if g["kind"][t - 1] == "exp" and not cached[t - 1]:
+                rows.append({"task": ident_of(pkgs, t), "ts": 1, "commit": None, "dirty": False})
+                rows.append({"task": ident_of(pkgs, t), "ts": 2, "commit": git_tpl["side"], "dirty": False})
     mx = g.get("lastTs0", 0)
     if mx and not any(r["ts"] == mx for r in rows):
         rows.append({"task": "//:zz", "ts": mx, "commit": None, "dirty": False})
@@ -147,7 +156,16 @@ def make_git_template(dirpath):
         P.git(dirpath, "add", "f.txt")
         P.git(dirpath, "commit", "-q", "-m", "c%d" % i)
         commits.append(P.git(dirpath, "rev-parse", "HEAD"))
-    return {"path": dirpath, "commits": commits}
+    # ... and a commit on another branch (forked from c1) that is NO ancestor of HEAD
+    P.git(dirpath, "checkout", "-q", "-b", "side", commits[0])
+    with open(os.path.join(dirpath, "side.txt"), "w") as f:
+        f.write("side\n")
+    P.git(dirpath, "add", "side.txt")
+    P.git(dirpath, "commit", "-q", "-m", "side")
+    side = P.git(dirpath, "rev-parse", "HEAD")
+    P.git(dirpath, "checkout", "-q", "-f", "-")
+    assert P.git(dirpath, "rev-parse", "HEAD") == commits[2]
+    return {"path": dirpath, "commits": commits, "side": side}
 
 
 _GIT_TPL = None
